@@ -25,14 +25,13 @@ RULE = ("cases: molecular Hamiltonians (H2, H3+, H3, H4, H4+, 3-21G H2, frozen v
 ASSUMPTIONS = ["dense spectra with numpy eigvalsh on <= 8 qubits", "sector ground energy from the JW sector block (validated against FCI in C04)"]
 ANCHORS = [
     ("tangelo/toolboxes/operators/multiformoperator.py", "get_kernel", "kernel of the binary operator matrix"),
-    ("tangelo/helpers/math.py", "20-57", "column echelon form"),
+    ("tangelo/helpers/math.py", "bool_col_echelon", "column echelon form"),
     ("tangelo/toolboxes/operators/z2_tapering.py", "get_clifford_operators,get_unitary,get_eigenvalues", "Clifford choice and sector eigenvalues"),
     ("tangelo/toolboxes/operators/z2_tapering.py", "get_z2_taper_function", "rotate, substitute eigenvalues, delete columns"),
-    ("tangelo/toolboxes/operators/trim_trivial_qubits.py", "23-183", "classification of idle / flipped / phase-only qubits"),
+    ("tangelo/toolboxes/operators/trim_trivial_qubits.py", "trim_trivial_operator,is_bitflip_gate,trim_trivial_circuit,trim_trivial_qubits", "classification of idle / flipped / phase-only qubits"),
     ("tangelo/toolboxes/operators/operators.py", "frobenius_norm_compression", "cumulative-norm cut-off"),
 ]
-REQUIRED = {"tapered_spectrum_subset": 20, "tapered_keeps_sector_ground_state": 20, "tapered_register_size": 20, "trim_expectation_unchanged": 150,
-            "trim_input_unchanged": 150, "truncation_eigenvalue_shift": 150}
+REQUIRED = {"tapered_spectrum_subset": 20, "tapered_keeps_sector_ground_state": 20, "tapered_register_size": 20, "trim_expectation_unchanged": 94, "trim_input_unchanged": 94, "truncation_eigenvalue_shift": 150}
 BUDGET = {"quick": 300, "thorough": 2400}
 
 
